@@ -107,3 +107,30 @@ void fx6_move_nested_gap(uint16_t *dest, const uint16_t *src, uint32_t len) {   
     while (len >= 4) { for (i = 0; i < 3; i++) dest[i] = src[i]; dest += 4; src += 4; len -= 4; }
     while (len) { *dest++ = *src++; len--; }
 }
+
+/* ---- symmetric copy loops keep the same books (sa/siblings.py) */
+#define FX_SYM(STEP2, LIMIT)                                                                     \
+    unsigned long n = 0;                                                                         \
+    if (dest < src) {                                                                            \
+        const char *bumper = src;                                                                \
+        while (dmax > 0) {                                                                       \
+            if (dest == bumper) return 404;                                                      \
+            *dest = *src;                                                                        \
+            if (*dest == 0) return 0;                                                            \
+            dmax--; n++; dest++; src++;                                                          \
+            if (n >= LIMIT) return 407;                                                          \
+        }                                                                                        \
+    } else {                                                                                     \
+        const char *bumper = dest;                                                               \
+        while (dmax > 0) {                                                                       \
+            if (src == bumper) return 404;                                                       \
+            *dest = *src;                                                                        \
+            if (*dest == 0) return 0;                                                            \
+            dmax--; STEP2; dest++; src++;                                                        \
+            if (n >= LIMIT) return 407;                                                          \
+        }                                                                                        \
+    }                                                                                            \
+    return 406;
+int fx6_sym_good(char *dest, unsigned long dmax, const char *src, unsigned long srcbos) { FX_SYM(n++, srcbos) }
+int fx6_sym_dropped_limit(char *dest, unsigned long dmax, const char *src, unsigned long srcbos) { FX_SYM((void)0, srcbos) }
+int fx6_sym_dropped_budget(char *dest, unsigned long dmax, const char *src, unsigned long slen) { FX_SYM((void)0, slen) }
